@@ -165,6 +165,15 @@ func (c09) Case(c *core.Ctx) {
 	keys := []string{"a", "b", "c", "k", "a", "b", "(0,10]", "r]", "#attr", "0"}
 	if arbitrary {
 		keys = append(keys, "", ".", "a.b", "[0]", "*", "a[1]", " ", "é", "#seq", "#comment", "1", "k ")
+		for i := 0; i < 4; i++ {
+			keys = append(keys, autoString(r, "a")) // literals of the tree under test, whatever they look like
+		}
+	} else if r.Intn(4) == 0 {
+		for _, k := range autoKeys(r, 3) {
+			if cfg.AttrPrefix == "" || !strings.HasPrefix(k, cfg.AttrPrefix) {
+				keys = append(keys, k) // (a key that starts with the attribute prefix is an attribute entry: generated separately)
+			}
+		}
 	}
 	var gen func(depth int) interface{}
 	scalar := func() interface{} {
